@@ -2298,7 +2298,11 @@ static ASTNode *parse_expression(Stage1Parser *p) {
     /* Outer loop handles both postfix (dot-access) and infix binary operators.
      * For each iteration: first consume all dot-access on expr, then check
      * for infix binary operator. If found, parse right operand and loop again.
+     * Postfix forms bind tighter than any infix operator: they apply to `*operand`,
+     * which is the whole expression at first and the right operand after an infix
+     * operator (so `1 + p.x` is `1 + (p.x)`, not `(1 + p).x`).
      */
+    ASTNode **operand = &expr;
     for (;;) {
         /* Handle field access or union construction:
          * - obj.field -> field access
@@ -2324,9 +2328,9 @@ static ASTNode *parse_expression(Stage1Parser *p) {
 
                 /* Create tuple index node */
                 ASTNode *index_node = create_node(AST_TUPLE_INDEX, line, column);
-                index_node->as.tuple_index.tuple = expr;
+                index_node->as.tuple_index.tuple = (*operand);
                 index_node->as.tuple_index.index = index;
-                expr = index_node;
+                (*operand) = index_node;
                 continue;
             }
 
@@ -2358,17 +2362,17 @@ static ASTNode *parse_expression(Stage1Parser *p) {
             /* Check if this is union construction: UnionName.Variant { ... } */
             /* Union names should start with uppercase by convention, and we need both
              * the union name and variant name to be identifiers (not field access) */
-            bool looks_like_union = (expr->type == AST_IDENTIFIER &&
-                                     expr->as.identifier &&
-                                     expr->as.identifier[0] >= 'A' &&
-                                     expr->as.identifier[0] <= 'Z' &&
+            bool looks_like_union = ((*operand)->type == AST_IDENTIFIER &&
+                                     (*operand)->as.identifier &&
+                                     (*operand)->as.identifier[0] >= 'A' &&
+                                     (*operand)->as.identifier[0] <= 'Z' &&
                                      field_or_variant &&
                                      field_or_variant[0] >= 'A' &&
                                      field_or_variant[0] <= 'Z');
 
             if (match(p, TOKEN_LBRACE) && looks_like_union) {
                 /* This is union construction */
-                char *union_name = expr->as.identifier;
+                char *union_name = (*operand)->as.identifier;
                 char *variant_name = field_or_variant;
 
                 advance(p);  /* consume '{' */
@@ -2431,14 +2435,14 @@ static ASTNode *parse_expression(Stage1Parser *p) {
                 union_construct->as.union_construct.field_count = count;
 
                 /* Free the original identifier node */
-                free_ast(expr);
-                expr = union_construct;
+                free_ast((*operand));
+                (*operand) = union_construct;
             } else {
                 /* Regular field access */
                 ASTNode *field_access = create_node(AST_FIELD_ACCESS, line, column);
-                field_access->as.field_access.object = expr;
+                field_access->as.field_access.object = (*operand);
                 field_access->as.field_access.field_name = field_or_variant;
-                expr = field_access;
+                (*operand) = field_access;
             }
         }
 
@@ -2467,6 +2471,7 @@ static ASTNode *parse_expression(Stage1Parser *p) {
                 bin_node->as.prefix_op.args[1] = right;
                 bin_node->as.prefix_op.arg_count = 2;
                 expr = bin_node;
+                operand = &bin_node->as.prefix_op.args[1];
                 continue;  /* loop back for more dot-access or infix ops */
             }
         }
